@@ -498,7 +498,10 @@ func (r *replicateChannelManager) AddPartition(ctx context.Context, dbInfo *mode
 			partitionLog.Info("the collection is dropped when add partition")
 			return nil
 		}
+		handlers = handlers[:0]
 		r.channelLock.RLock()
+		// every shard of the collection gets a handler entry as soon as StartReadCollection has run
+		shardNum := len(r.sourcePChannelKeyMap[collectionID])
 		for _, handler := range r.channelHandlerMap {
 			handler.recordLock.RLock()
 			if _, ok := handler.collectionRecords[collectionID]; ok {
@@ -510,6 +513,11 @@ func (r *replicateChannelManager) AddPartition(ctx context.Context, dbInfo *mode
 		if len(handlers) == 0 {
 			partitionLog.Info("waiting handler")
 			return errors.New("no handler found")
+		}
+		if len(handlers) < shardNum {
+			// some shards have not registered their stream yet: a barrier sized now would fire too early
+			partitionLog.Info("waiting all handlers", zap.Int("found", len(handlers)), zap.Int("shard_num", shardNum))
+			return errors.New("not all handlers found")
 		}
 		return nil
 	}, r.retryOptions...)
